@@ -33,10 +33,30 @@ CHECKS = [
           "Runtime monitor: for each generated registration set the aggregate key bytes, total stake and every party's slot are observed through mithril-stm directly, through mithril-common's SignerBuilder over KES-certified fixture signers, and after passing signers and key through their JSON/hex wire forms; observations must be equal across all registration orders (all n! for n<=6, sampled above) and paths, and differ for neighbouring sets. Held on the sets explored.",
           "Blake2b collision resistance; equal-prefix keys are drawn from a pool of a few hundred keys (pairs sharing 2 leading bytes, not more)",
           "runtime monitor: metamorphic equality across permutations / computation paths / codecs", "DESIGN.md §2 C06"),
+    check("C07", "mon-reg", "exploration",
+          "Runtime monitor with ground truth by construction: the harness makes cold keys, Sum6Kes keys evolved to chosen periods, operational certificates and STM keys itself and keeps a ledger of everything genuinely signed; every submission (component mutations, all pairwise splices of two valid registrations, announced evolutions at all boundaries, absent/zero-stake pools, certificate-less registration) is pushed through KeyRegWrapper::register, the aggregator's MithrilSignerRegistrationVerifier::verify and MithrilSignerRegistrationLeader::register_signer; accepted <=> all conjuncts of the statement hold, recorded party = derived pool id, recorded stake = distribution value.",
+          "ed25519 / KES / BLS unforgeability; built without allow_skip_signer_certification (checked with cargo tree)",
+          "runtime monitor: ground-truth-by-construction oracle over mutated and spliced registrations", "DESIGN.md §2 C07"),
     check("C08", "mon-stm", "exploration",
           "Runtime monitor with an offline exact checker: the real is_lottery_won (eligibility.rs of the working tree compiled in by path inclusion) is evaluated on ~20k (quick) to millions (thorough) of cases concentrated around the threshold; every decision is logged and judged by an independent mpmath (600-bit) evaluation of p < 1-(1-phi)^(stake/total) outside a 2^-40 band; determinism, monotonicity chains, stake 0, phi 1 and signer/verifier agreement per index are asserted online.",
           "mpmath as reference; 2^-40 band around equality is not judged; only the num-integer backend (the one compiled in this workspace) is observed",
           "runtime monitor: decision log + offline exact-arithmetic checker (differential), online monotonicity/determinism assertions", "DESIGN.md §2 C08"),
+    check("C12", "mon-digest", "exploration",
+          "Runtime monitor: the real CardanoImmutableDigester / CardanoDatabaseSignableBuilder run on harness-written databases; metamorphic equality (creation order, extra files, files beyond the beacon, cache histories cold/warm/partial/longer/shorter/shared JSON cache) plus a reference root (own sha256 per file + own MMR/Blake2s tree, cross-checked against the repo tree); without cache every single-byte change / removal of a covered file must change the root or error.",
+          "sha256/blake2 as primitives; excluded by stated assumption: a second directory named immutable, symlinks, files modified while cached, concurrent use of one cache",
+          "runtime monitor: metamorphic + reference-model oracle over generated databases and cache histories", "DESIGN.md §2 C12"),
+    check("C14", "mon-agg", "exploration",
+          "History monitor over the REAL aggregator (its own DependenciesBuilder wiring, file-backed sqlite, real state machine/certifier/epoch service/signer registration/signed entity service; doubles only for the outside world): seeded random histories of ticks, epoch changes incl. jumps, new immutables/blocks, partial/late registrations, valid/repeated/invalid/early(buffered) signatures, forced expiry, clean restarts, genesis re-issue; after every event the tables are read through an independent connection and every new certificate row is judged (live open message + quorum of acknowledged valid deliveries, key/parameters recomputed from the logged registrations, parent rule, no double certification, no gap); every stored certificate is verified with the public certificate verifier fed from the aggregator's own message service. Held on the histories explored; evidence lists states/transitions reached.",
+          "test doubles for chain observer / immutable observer / digester / block scanner / uploader / snapshotter; clean restarts only (C15 covers crashes); sqlite durability",
+          "runtime monitor: boundary event log + table snapshots checked by a history checker (reference recomputation of keys, parent, quorum)", "DESIGN.md §2 C14"),
+    check("C16", "mon-agg", "exploration",
+          "Runtime monitor over the real aggregator: per open message the harness produces every party's honest signature itself (ground truth of who produced which sigma), then delivers shuffled honest + adversarial submissions (own sigma under another name, another party's sigma under own / unregistered name with full or truncated index lists, replays, truncated replays under the owner's name) through the certifier API, the real warp HTTP router, the buffered path and the message-queue signature processor; after every submission the single_signature table is read independently: each row must hold a sigma that verifies under the key the labelled party registered, no sigma under two labels, acknowledged honest contributions never disappear or shrink; the sealed certificate's signer list must name only parties with such a row.",
+          "ground truth by construction + mithril-stm verification under the labelled party's registered key; on the message queue the party id is bound by the transport so relabelling is only sent through HTTP/API",
+          "runtime monitor: ground-truth-by-construction oracle over the store after every submission", "DESIGN.md §2 C16"),
+    check("C17", "mon-beacon", "exploration",
+          "Runtime monitor: the real SignedEntityConfig::time_point_to_signed_entity / compute_block_number_to_be_signed evaluated on an exhaustive grid (tip 0..700 x 14 security parameters x 15 steps, successive-tip pairs) and millions of seeded 64-bit samples; i128 oracle from the statement: upper bound tip-security floored at 0, monotone in the tip, whole steps, block-range boundary for the transaction entity, purity/agreement across independently built configs and all entity types, epoch 0.",
+          "the direction of rounding the step to the range length is not fixed by the statement: the oracle accepts either as long as one candidate explains every selection of a configuration",
+          "runtime monitor: arithmetic reference oracle over an exhaustive grid + random samples", "DESIGN.md §2 C17"),
 ]
 
 ALL = [f"C{i:02d}" for i in range(1, 21)]
@@ -62,6 +82,11 @@ def main():
         "engines": [
             {"name": "mon-stm", "path": "harness/mon-stm", "serves_properties": ["C01", "C02", "C06", "C08"],
              "kind_free_text": "Rust monitors linking mithril-stm of the working tree; reference oracles in refagg.rs/reflot.rs"},
+            {"name": "mon-agg", "path": "harness/mon-agg", "serves_properties": ["C14", "C15", "C16"],
+             "kind_free_text": "the real aggregator (DependenciesBuilder wiring, file-backed sqlite) driven by seeded histories in child processes; history / store checkers"},
+            {"name": "mon-reg", "path": "harness/mon-reg", "serves_properties": ["C07"], "kind_free_text": "registration submissions with harness-made keys against the three real registration entry points"},
+            {"name": "mon-beacon", "path": "harness/mon-beacon", "serves_properties": ["C17"], "kind_free_text": "grid + random evaluation of the beacon selection against an i128 oracle"},
+            {"name": "mon-digest", "path": "harness/mon-digest", "serves_properties": ["C12"], "kind_free_text": "real immutable digester on harness-written databases; metamorphic + reference root"},
         ],
         "checks": CHECKS,
         "not_applicable": na,
